@@ -178,3 +178,22 @@ Theorem C03_decomposition_has_at_least_antichain_many_paths :
   decomposition I P w -> (length A' <= p_k (f_base I))%nat.
 Proof. exact decomposition_needs_antichain_many_paths. Qed.
 Print Assumptions C03_decomposition_has_at_least_antichain_many_paths.
+
+(* (11) the exhaustive oracle that decides the minimum of each sampled INTEGER instance is itself verified and extracted
+   (FlowOracle.v): it returns the least number of weighted source-to-sink paths (non-negative integer weights) explaining the
+   non-ignored flow and realising the subpath constraints *)
+From FP Require Import CoverOracle FlowOracle.
+Theorem C03_verified_oracle_returns_the_minimum :
+  forall (I : kfd_inst) (rank : node -> nat) (kmax : nat),
+  PathEncProofs.wf_graph (p_graph (f_base I)) -> (forall u v, In (u, v) (g_edges (p_graph (f_base I))) -> (rank u < rank v)%nat) ->
+  f_int I = true ->
+  (forall e, In e (need_of I) -> is_int (lookup_q e (f_flow I) 0%Q) /\ (0 <= lookup_q e (f_flow I) 0 <= f_wmax I)%Q) ->
+  (0 <= f_wmax I)%Q ->
+  match min_fd I kmax with
+  | Some k => (1 <= k <= kmax)%nat /\
+              (exists P w, decomposition (set_k_fd I k) P w /\ constraints_covered (f_base (set_k_fd I k)) P) /\
+              (forall j, (1 <= j < k)%nat -> ~ exists P w, decomposition (set_k_fd I j) P w /\ constraints_covered (f_base (set_k_fd I j)) P)
+  | None => forall j, (1 <= j <= kmax)%nat -> ~ exists P w, decomposition (set_k_fd I j) P w /\ constraints_covered (f_base (set_k_fd I j)) P
+  end.
+Proof. exact min_fd_correct. Qed.
+Print Assumptions C03_verified_oracle_returns_the_minimum.
